@@ -107,11 +107,12 @@ def run_echo(role, ext, copts, msgs, cut=None):
             if role == "server":
                 s.rec["on_message"] = lambda hd, m: hd.write_message(m, binary=isinstance(m, bytes))
             for i, (kind, n) in enumerate(msgs):
-                opcode, payload, value = make_message(kind, n, salt=i)
+                raw = kind.endswith("-raw")     # the peer sends this message uncompressed (RSV1 clear; RFC 7692 6)
+                opcode, payload, value = make_message(kind[:-4] if raw else kind, n, salt=i)
                 sent.append((opcode, payload, value))
                 wire = payload
                 rsv = 0
-                if s.deflate is not None:
+                if s.deflate is not None and not raw:
                     wire = s.deflate.compress(payload)
                     rsv = 0x40
                 frame = s.frame(True, opcode, wire, rsv=rsv)
@@ -286,6 +287,11 @@ class C14(Check):
             # an incompressible message, then the same bytes again (and once more after a text message)
             seqs += [[("bin-incompressible", n), ("bin-incompressible-again", n)] for n in (126, 1000)]
             seqs += [[("bin-incompressible", 300), ("text", 20), ("bin-incompressible-again", 300)]]
+            if ext:
+                # per message the sender is free not to compress: compressed and plain messages interleave
+                seqs += [[("text", 20), ("text-raw", 20)], [("text-raw", 20), ("text", 20)],
+                         [("bin-compressible", 126), ("bin-incompressible-raw", 126), ("text", 20)],
+                         [("text-raw", 0), ("bin-compressible", 40), ("text-raw", 300)]]
             if tier == "thorough":
                 tiny = [(k, n) for k in KINDS for n in (1, 127)]
                 seqs += [list(p) for p in itertools.product(tiny, repeat=3)]
